@@ -315,7 +315,8 @@ def _vectorised_status(f, q) -> None:
     """The statuses are written in one array operation (`self.status[positions] = status[mask]`): which code ends with which
     status is then a matter of mask arithmetic, which this rule does not read."""
     for s_ in series_stores(f.cfg, f.lf):
-        if s_.series == 'status' and isinstance(s_.value, ast.Subscript) and isinstance(s_.value.value, ast.Name) and s_.value.value.id in f.lf.locals:
+        collected = isinstance(s_.value, ast.Name) and s_.value.id in f.lf.locals and s_.value.id in f.mutated_in_place()
+        if s_.series == 'status' and (collected or (isinstance(s_.value, ast.Subscript) and isinstance(s_.value.value, ast.Name) and s_.value.value.id in f.lf.locals)):
             raise Unknown(f'{q}: `{s_.node.label()[:60]}` records the statuses of all periods in one array operation: the status per error code is not read')
 
 
@@ -426,13 +427,29 @@ def r4_code_tables(R, unit: FUnit) -> None:
             reach = fl.reach(starts, avoid_nodes=loop_hdrs)
             nodes = {p_[0] for p_ in reach}
             out = set()
-            for i in nodes:
-                nd = f.cfg.nodes[i]
+            for p_ in reach:
+                nd = f.cfg.nodes[p_[0]]
                 if nd.kind == 'stmt' and isinstance(nd.ast, ast.Raise):
-                    out.add(f.raised(nd) or '?')
+                    ex_ = nd.ast.exc
+                    if isinstance(ex_, ast.Name) and ex_.id in fl.idx:
+                        # an exception object built earlier and carried in a local: its class is part of the state
+                        tok = p_[1][fl.idx[ex_.id]]
+                        out.add(tok[1] if tok[0] == 'x' else '?')
+                    else:
+                        out.add(f.raised(nd) or '?')
             normal = f.cfg.exit in nodes or any(q_[0] in loop_hdrs for p_ in reach for (q_, _l) in fl.succ.get(p_, []))
             if normal:
                 out.add('<normal>')
+            # statuses stored through a flag (`self.status[t] = status.value`, status chosen earlier): read from the state
+            stored = set()
+            for p_ in reach:
+                nd = f.cfg.nodes[p_[0]]
+                a_ = nd.ast
+                if nd.kind == 'stmt' and isinstance(a_, ast.Assign) and len(a_.targets) == 1 and isinstance(a_.targets[0], ast.Subscript) and text(a_.targets[0].value) == 'self.status':
+                    tok = fl.val(a_.value, p_[1])
+                    if tok[0] == 'e' and tok[3] == 'value':
+                        stored.add(tok[2])
+            outcome.stored = stored
             return out, nodes, bool(starts)
 
         default_exc = 'FortranEngineError' if m != '_evaluate' else 'SolutionError'
@@ -465,16 +482,19 @@ def r4_code_tables(R, unit: FUnit) -> None:
                 acting = [None]
             got = set()
             touched = set()
+            stored_ = set()
             for md in acting:
                 o_, nn_, any_ = outcome(code, md)
                 if any_:
                     got |= o_
                     touched |= nn_
+                    stored_ |= getattr(outcome, 'stored', set())
             if want is None:
                 R.check(got == {'<normal>'}, q, f'code-exception:{cname}', f'{cname} ({code}) raises nothing (status S)', f'{cname} ({code}) leads to {sorted(got)}', where=f.fi.where)
                 st_s = [s_ for s_ in series_stores(f.cfg, f.lf) if s_.node.id in touched and s_.series == 'status' and enum_value_ref(s_.value) == 'SKIPPED']
                 skipped_flag = any(isinstance(f.cfg.nodes[i].ast, ast.Assign) and enum_value_ref(f.cfg.nodes[i].ast.value) == 'SKIPPED' for i in touched) or \
                     any(isinstance(x, ast.Attribute) and text(x) == 'SolutionStatus.SKIPPED.value' for i in touched if f.cfg.nodes[i].ast is not None for x in ast.walk(f.cfg.nodes[i].ast))
+                skipped_flag = skipped_flag or 'SKIPPED' in stored_
                 if not (st_s or skipped_flag):
                     _vectorised_status(f, q)
                 R.check(bool(st_s) or skipped_flag, q, f'code-status:{cname}', f'{cname} ({code}) records status S', f'{cname} ({code}) does not record SolutionStatus.SKIPPED', where=f.fi.where)
@@ -484,6 +504,8 @@ def r4_code_tables(R, unit: FUnit) -> None:
                     f'error code {code} ({cname}) leads to {sorted(got)} from {m}() but the pure-Python engine raises {want} in the same situation', where=f.fi.where)
             if cname == 'numerical_error_raise':
                 st_e = [s_ for s_ in series_stores(f.cfg, f.lf) if s_.node.id in touched and s_.series == 'status' and enum_value_ref(s_.value) == 'ERROR']
+                if not st_e and 'ERROR' in stored_:
+                    st_e = [True]
                 if not st_e and m != '_evaluate':
                     _vectorised_status(f, q)
                 R.check(bool(st_e) or m == '_evaluate', q, f'code-status:{cname}', f'{cname} ({code}) records status E before raising', f'{cname} ({code}) does not record SolutionStatus.ERROR',
